@@ -234,6 +234,8 @@ theorem stamp_spec (occ : Bool) (base : Int) (ms : List Msg) :
     unfold stamp at h
     simp only at h
     split at h
+    · split at h <;> cases h
+    split at h
     · cases h
     · cases hrest : stamp occ base (i + 1) ms with
       | err e => rw [hrest] at h; cases h
